@@ -580,3 +580,77 @@ func init() {
 		return nil`, New: `	case AuthorStatusPassAdd, AuthorStatusFail, AuthorStatusError:
 		return nil`}}})
 }
+
+func init() {
+	// ---- C02 ------------------------------------------------------------------------------
+	addMutant(Mutant{Name: "c02-drop-one-width-bound", Props: []string{"C02"}, Rule: "R-NARROW", KeySub: "AuthenStart.MarshalBinary:len:Port",
+		Why: "one of the repaired width bounds is dropped (port)",
+		Edits: []Edit{{File: "authenticate.go", Old: `	if len(a.User) > 0xff || len(a.Port) > 0xff || len(a.RemAddr) > 0xff || len(a.Data) > 0xff {`, New: `	if len(a.User) > 0xff || len(a.RemAddr) > 0xff || len(a.Data) > 0xff {`}}})
+	addMutant(Mutant{Name: "c02-bound-off-by-one", Props: []string{"C02"}, Rule: "R-NARROW", KeySub: "AcctReply.MarshalBinary:len:ServerMsg",
+		Why: "the 16-bit bound is written as 0x10000: a 65536-byte message wraps to length 0",
+		Edits: []Edit{{File: "accounting.go", Old: `	if len(a.ServerMsg) > 0xffff || len(a.Data) > 0xffff {`, New: `	if len(a.ServerMsg) > 0x10000 || len(a.Data) > 0xffff {`}}})
+	addMutant(Mutant{Name: "c02-marshal-without-validate", Props: []string{"C02"}, Rule: "R-VALIDATE-PASS", KeySub: "AuthorReply.MarshalBinary",
+		Why: "AuthorReply.MarshalBinary no longer validates",
+		Edits: []Edit{{File: "authorize.go", Old: `func (a *AuthorReply) MarshalBinary() ([]byte, error) {
+	// validate
+	if err := a.Validate(); err != nil {
+		return nil, err
+	}`, New: `func (a *AuthorReply) MarshalBinary() ([]byte, error) {`}}})
+	addMutant(Mutant{Name: "c02-unmarshal-validate-before-fields", Props: []string{"C02"}, Rule: "R-VALIDATE-PASS", KeySub: "AcctReply.UnmarshalBinary",
+		Why: "the decoder validates before it has filled the fields",
+		Edits: []Edit{{File: "accounting.go", Old: `	buf := readBuffer(data)
+	serverMsgLen := buf.uint16()
+	dataLen := buf.uint16()
+	a.Status = AcctReplyStatus(buf.byte())
+`, New: `	if err := a.Validate(); err != nil {
+		return err
+	}
+	buf := readBuffer(data)
+	serverMsgLen := buf.uint16()
+	dataLen := buf.uint16()
+	a.Status = AcctReplyStatus(buf.byte())
+`},
+			{File: "accounting.go", Old: `		return NewBadSecretErr("bad secret detected acctreply")
+	}
+	// validate
+	if err := a.Validate(); err != nil {
+		return err
+	}
+	return nil`, New: `		return NewBadSecretErr("bad secret detected acctreply")
+	}
+	return nil`}}})
+	addMutant(Mutant{Name: "c02-arg-upper-bound-gone", Props: []string{"C02"}, Rule: "R-NARROW", KeySub: "elemlen:Args",
+		Why: "Arg.Validate no longer bounds the argument length from above",
+		Edits: []Edit{{File: "authorize_fields.go", Old: `	if len(t) < 2 || len(t) > 255 {`, New: `	if len(t) < 2 {`}}})
+	addMutant(Mutant{Name: "c02-seqno-bound-gone", Props: []string{"C02", "C06"}, Rule: "R-NARROW", KeySub: "val:SeqNo",
+		Why: "SequenceNumber.Validate no longer rejects numbers above 255: 256 is written as octet 0",
+		Edits: []Edit{{File: "header_fields.go", Old: `	case v > HeaderMaxSequence:
+		return fmt.Errorf("headerMaxSequence exceeded [%v]", t)
+`, New: ``}}})
+	addMutant(Mutant{Name: "c02-decoder-normalises-field", Props: []string{"C02", "C01"}, Rule: "R-LAYOUT", KeySub: "AuthorRequest:decoder",
+		Why: "the decoder trims the user name after reading it: decode(encode(v)) != v for names with surrounding blanks",
+		Edits: []Edit{{File: "authorize.go", Old: `	a.Args = make(Args, 0, argCnt)
+	for _, n := range argLens {
+		a.Args = append(a.Args, Arg(buf.string(n)))
+	}
+
+	// detect secret mismatch
+	if a.Len() != userLen+portLen+remAddrLen+totalArgLen {
+		return NewBadSecretErr("bad secret detected authorrequest")
+	}`, New: `	a.Args = make(Args, 0, argCnt)
+	for _, n := range argLens {
+		a.Args = append(a.Args, Arg(buf.string(n)))
+	}
+
+	// detect secret mismatch
+	if a.Len() != userLen+portLen+remAddrLen+totalArgLen {
+		return NewBadSecretErr("bad secret detected authorrequest")
+	}
+	a.User = AuthenUser(strings.TrimSpace(string(a.User)))`},
+			{File: "authorize.go", Old: `import (
+	"fmt"
+)`, New: `import (
+	"fmt"
+	"strings"
+)`}}})
+}
